@@ -44,3 +44,8 @@ declare_fields('PredefinedDataLine', _byte_length='int', _byte_value='int')
 declare_fields('EmbeddedString', _string_bytes='list[int]')
 declare_fields('DataLine', _arg_value_list='list[union]', _directive='str', _endian='str')
 declare_fields('InstructionLine', _assembled_instruction='AssembledInstruction')
+
+declare_fields('Assembler', _source_file='str', _output_file='str', _config_file='str', _generate_binary='bool',
+               _enable_pretty_print='bool', _pretty_print_format='str', _pretty_print_output='str',
+               _binary_fill_value='int', _verbose='int', _binary_start='int', _binary_end='int?',
+               _model='AssemblerModel', _include_paths='list[str]', _predefined_symbols='list[str]')
